@@ -133,6 +133,9 @@ func (o FaultOracle) Step(si *engine.StepInfo) []engine.Finding {
 				out = append(out, fd("C19", "recovery-declared-by-other-than-accused", "", fmt.Sprintf("%s set fault %s (provider %s) to recovering; sender %s", si.Op.Label, id, w.NameOf(f.Provider), w.NameOf(creator))))
 			}
 		}
+		if fmt.Sprint(old) != fmt.Sprint(f) && !(fishman && isNode) && creator != old.Provider {
+			out = append(out, fd("C19", "fault-record-changed-by-third-party", si.Op.Kind, fmt.Sprintf("%s by %s changed fault %s recorded against %s", si.Op.Label, w.NameOf(creator), id, w.NameOf(old.Provider))))
+		}
 		if old.Status != f.Status && f.Status == nodetypes.FaultStatusConfirmed && (!fishman || !isNode) {
 			out = append(out, fd("C19", "fault-confirmed-by-non-fishman", "", fmt.Sprintf("%s confirmed fault %s", si.Op.Label, id)))
 		}
@@ -278,6 +281,16 @@ func C19Scenario(tier string) *engine.Scenario {
 				f := saotypes.Fault{DataId: world.Data1, OrderId: 1, ShardId: mine, CommitId: o1.Commit, Provider: accused}
 				out = append(out, Tx("recover", fmt.Sprintf("recover(by=%s,accused=%s)", w.A(ri).Name, w.NameOf(accused)),
 					&saotypes.MsgRecoverFaults{Creator: w.A(ri).S(), Provider: accused, Faults: []*saotypes.Fault{&f}}))
+			}
+		}
+		// self-service declarations: a node lists other providers among its own transaction addresses (legitimate on its
+		// own; it must not let the node act as those providers)
+		for _, d := range []struct {
+			who  int
+			list []string
+		}{{world.S2, []string{s1}}, {world.P, []string{s1, s2}}} {
+			if n, ok := a.NodeKeeper.GetNode(ctx, w.A(d.who).S()); ok && fmt.Sprint(n.TxAddresses) != fmt.Sprint(d.list) {
+				out = append(out, Tx("declare", fmt.Sprintf("declare(%s,tx=%d providers)", w.A(d.who).Name, len(d.list)), &nodetypes.MsgReset{Creator: w.A(d.who).S(), Status: n.Status, TxAddresses: d.list}))
 			}
 		}
 		// hand-over of a shard by migration (the former holder stays recorded in Shard.From)
